@@ -144,8 +144,8 @@ FIRST_MISSED = {
     'c04-y': 'part `minimal` (d=3): minimal cases x --keep x --preprocessor x start directory elsewhere',
     'c04-z': 'part `minimal`: cases with nothing to execute in any phase still use (and --keep reports) a sandbox',
     'c06-x': 'meaning of file-matcher primitives on symbolic links: caught by C15',
-    'c06-y': 'NOT ANSWERED in this session: `-with-pruned FM A && B` (precedence after a primitive that takes a '
-             'files-matcher argument); needs that primitive in the generated files-matcher trees of C06 / C15',
+    'c06-y': 'caught by C15 after it got the literal case `with-pruned-followed-by-operator` (an infix operator after '
+             '`-with-pruned FM A` belongs to the enclosing expression)',
     'c07-x': 'shapes `include_symlink_loop*`, `include_dangling_link`',
     'c07-y': 'the act-merge comparison was made exact per line (two glued shell lines had produced the same words)',
     'c08-y': '--act skipping the validation of the skipped phases: the same change is c03-y, caught by C03',
